@@ -5,7 +5,7 @@ Import ListNotations.
 From PG Require Import Common.Tactics Model.SymCoreDefs Model.SymCoreOps Model.SymCoreSpec Model.SymCoreC02
      Proofs.SymCoreBase Proofs.SymCoreWF Proofs.SymCoreWFOps Proofs.SymCoreClone Proofs.SymCoreIds Proofs.SymCoreC02Read
      Proofs.SymCoreC02Frame Proofs.SymCoreC02Prim Proofs.SymCoreC02List Proofs.SymCoreC02Dict Proofs.SymCoreC02Step
-     Proofs.SymCoreC02Slice Proofs.SymCoreC02WF Proofs.SymCoreC02Or Proofs.SymCoreC02Rebind Proofs.SymCoreC02Nested Proofs.SymCoreC02Refs.
+     Proofs.SymCoreC02Slice Proofs.SymCoreC02WF Proofs.SymCoreC02Or Proofs.SymCoreC02Rebind Proofs.SymCoreC02Nested Proofs.SymCoreC02Refs Proofs.SymCoreC02RefStep.
 From PG Require Model.PyList Model.PyDict.
 Local Open Scope Z_scope.
 
@@ -133,3 +133,19 @@ Proof.
   - exists (1%nat, []), (Node 3 KDict None [] default_flags ex_dict_items). repeat split; vm_compute; reflexivity.
   - exists (0%nat, [KI 1]), (Node 2 KDict (Some 1%N) [KI 1] default_flags [(ka, Leaf (LInt 2))]). repeat split; vm_compute; reflexivity.
 Qed.
+
+(* arguments taken from the list itself: l.append(l[1]); l[0] = l[1].a; l.insert(0, l); l.pop(2); l[-1] = l[0][3] *)
+Definition ex_self_history : list (scope * rop) :=
+  [ (sc0, RAppend [KI 1]); (sc0, RSet 0 [KI 1; ka]); (sc0, RInsert 0 []); (sc0, RPlain (LPop (Some 2))); (sc0, RSet (-1) [KI 0; KI 3]) ].
+Definition ex_da : pv := PNode KDict [(ka, PLeaf (LInt 2))].
+Example ex_self_hypotheses :
+  rhist_ok default_flags (evals ex_list_items) ex_self_history /\
+  rhist_py (evals ex_list_items) ex_self_history =
+  [plist [PLeaf (LInt 2); ex_da; PLeaf (LStr [98%N]); ex_da]; PLeaf (LInt 2); PLeaf (LStr [98%N]); ex_da].
+Proof.
+  split; [|vm_compute; reflexivity].
+  unfold ex_self_history. cbn [rhist_ok]. repeat (split; [split; reflexivity|]; eexists; split; [vm_compute; reflexivity|]). exact I.
+Qed.
+(* an opaque object written over itself: the tags agree because it is the same leaf *)
+Example ex_tag_agree : forall t, tag_agree (Leaf (LOpq 5 t)) (RLeaf (LOpq 5 t)) /\ ref_value ex_state (RLeaf (LOpq 5 t)) (PLeaf (LOpq 0 t)).
+Proof. intros t. split. intros o t1 t2 E1 E2. inv E1. inv E2. reflexivity. split. discriminate. reflexivity. Qed.
